@@ -1,23 +1,104 @@
 """C19 — attribute flags print to an expression with the same numeric value."""
 
+MODS = ["AvoVerif.Props.C19", "AvoVerif.Props.C19Tables", "AvoVerif.Props.C19File", "AvoVerif.Props.C19FileTables"]
+
+
+def floors(ctx, sub, spec):
+    """Lower bounds on what the file-level streams actually judged per class (and upper bounds on what they dropped):
+    the coverage of prior include lists x sections cannot silently rot."""
+    st = ctx.coverage.get("input_distribution", {}).get(sub)
+    if st is None:
+        return  # the stream did not run: already an obligation failure
+    bad = []
+    for key, (lo, hi) in spec.items():
+        v = st.get(key, 0)
+        if lo is not None and v < lo:
+            bad.append(f"{key}={v} < {int(lo)}")
+        if hi is not None and v > hi:
+            bad.append(f"{key}={v} > {int(hi)}")
+    ctx.obligations += 1
+    if bad:
+        ctx.obligation_failures.append((f"{sub}: sample floor", "; ".join(bad)))
+    else:
+        ctx.discharged += 1
+
+
 def run(ctx):
-    if not ctx.build_harness(['c19.go']):
+    if not ctx.build_harness(['c19.go', 'c19file.go']):
         return
     ctx.regen([("Gen/TextFlags", "TextFlags"), ("Oracle/TextFlagH", "TextFlagH")])
     ctx.forbidden_scan()
     # the driver (model + acceptor) must build even when a table theorem breaks
     if not ctx.build_driver():
         return
-    if ctx.lake_each(["AvoVerif.Props.C19", "AvoVerif.Props.C19Tables"]):
+    if ctx.lake_each(MODS):
         ctx.audit("C19")
     if ctx.tier == "thorough":
-        ctx.leanchecker(["AvoVerif.Props.C19", "AvoVerif.Props.C19Tables"])
-    n = 2000 if ctx.tier == "quick" else 50000
-    ctx.differential("c19", n, nontrivial=lambda req, resp: not req.endswith(" 0"))
+        ctx.leanchecker(MODS)
+    quick = ctx.tier == "quick"
+    n = 2000 if quick else 50000
+    nasm = 150 if quick else 4000
+    if not ctx.replay:
+        # hand-picked files (corpus/C19/*.txt): near misses of the header's name in front of sections that need it
+        ctx.run_corpus("c19")
+    ctx.differential("c19", n, extra=["-work", ctx.dir, "-nasm", str(nasm)],
+                     nontrivial=lambda req, resp: not req.endswith(" 0"))
+    if not ctx.replay:
+        nctx = n // 4
+        spec = {
+            # hand-built files, the pass called directly (twice), real printer
+            "ir_files": (n, None), "ir_second_runs": (n * 0.99, None), "ir_files_judged": (n * 0.95, None),
+            "ir_lists_none": (n / 30, None), "ir_lists_exact_only": (n / 30, None),
+            "ir_lists_nearmiss_only": (n / 8, None), "ir_lists_nearmiss_and_exact": (n / 15, None),
+            "ir_lists_ordinary_only": (n / 20, None), "ir_lists_many": (n / 40, None),
+            "ir_lists_duplicate_exact": (n / 60, None), "ir_lists_with_empty_string": (n / 40, None),
+            "ir_need_and_nearmiss_only": (n / 12, None), "ir_noneed_and_nearmiss_only": (n / 40, None),
+            "ir_need_and_exact": (n / 10, None), "ir_need_and_none": (n / 50, None),
+            "ir_need_only_first_section": (n / 30, None), "ir_need_only_last_section": (n / 30, None),
+            "ir_need_only_globals": (n / 15, None), "ir_need_only_functions": (n / 15, None),
+            "ir_no_sections": (n / 50, None),
+            # build.Context -> pass.Compile -> printer
+            "ctx_files": (nctx, None), "ctx_compiled": (nctx, None), "ctx_files_judged": (nctx, None),
+            "ctx_build_error": (None, 0), "ctx_compile_error": (None, 0), "ctx_compile_panic": (None, 0),
+            "ctx_need_and_nearmiss_only": (nctx / 20, None), "ctx_noneed_and_nearmiss_only": (nctx / 50, None),
+            "ctx_need_and_exact": (nctx / 10, None), "ctx_lists_none": (nctx / 40, None),
+            # assembled by go tool asm
+            "asm_files": (nasm, None), "asm_compiled": (nasm, None), "asm_accepted": (nasm * 0.9, None),
+            "asm_build_error": (None, 0), "asm_compile_error": (None, 0), "asm_compile_panic": (None, 0),
+            "asm_skipped_unsafe_path": (None, nasm / 20), "asm_skipped_fs": (None, nasm / 20),
+            "asm_need_and_nearmiss_only": (nasm / 5, None), "asm_need_and_exact": (nasm / 15, None),
+            "asm_noneed_and_nearmiss_only": (nasm / 40, None), "asm_sections_named": (nasm / 2, None),
+        }
+        for c in ("suffix", "dir", "prefix", "superstring", "case", "substring", "blank", "dotpath", "typo", "unicode", "doubled"):
+            spec["near_" + c] = (n / 20, None)
+        floors(ctx, "c19", spec)
     ctx.coverage["exhaustive"] = True
-    ctx.coverage["rule"] = ("all 65536 attribute values through Attribute.Asm/ContainsTextFlags and the TEXT-clause rule "
-                            "(exact model comparison + acceptor evaluating the implementation's text with the installed "
-                            "textflag.h), plus generated files through pass.IncludeTextFlagHeader; non-trivial = value != 0")
-    ctx.assumptions += ["the assembler evaluates `A|B|n` as bitwise OR of macro values and decimal literals",
+    ctx.coverage["rule"] = (
+        "all 65536 attribute values through Attribute.Asm/ContainsTextFlags and the TEXT-clause rule (exact model comparison + "
+        "acceptor evaluating the implementation's text with the installed textflag.h). FILE LEVEL, over prior include lists "
+        "(none; exactly \"textflag.h\"; near misses of the name built by mutation operators — suffix, directory prefix, prefix, "
+        "superstring, other case, substring, blanks, ./ ../ / spellings, typos, non-ASCII look-alikes, doubled —; ordinary headers; "
+        "the empty string; 9..40 entries; duplicate entries; the header first/last/anywhere) x sections (none; zero attributes; "
+        "only unnamed bits; named flags; exactly one needing section first/last/anywhere; functions, static and package-level "
+        "globals; random words), three routes: `ir` = hand-built ir.File, pass.IncludeTextFlagHeader called directly and then "
+        "once more on its own output (`inclpass`, exact list equality with the model; `accept-incl`), real printer, `accept-file` "
+        "= Lean acceptor acceptFile on the include lines and clauses READ FROM THE PRINTED TEXT (each clause evaluated in the macro "
+        "environment of exactly those include lines); `ctx` = build.Context -> Result -> user includes appended -> pass.Compile "
+        "(the pass at its place in the pipeline) -> printer, same two requests; `asm` = such a file assembled by go tool asm -S "
+        "with -I $GOROOT/pkg/include -I <scratch dir with generated user headers that define no flag macro>, one DATA probe per "
+        "clause appended so that the ASSEMBLER evaluates the printed expression in the file's own include environment "
+        "(`accept-asmfile`: accepted, every probe value = attribute value, symbol DUPOK flag = bit 2). Sample floors per class "
+        "(vlib/props/c19.py) are obligations. non-trivial = value != 0")
+    ctx.assumptions += ["world hypothesis of the file theorems (Props/C19File.World): `#include \"textflag.h\"` resolves to the installed "
+                        "header and no OTHER included file defines one of avo's flag names (a user header that does is the user's "
+                        "conflict: the assembler rejects the redefinition)",
+                        "an include path names the toolchain header only by its exact spelling; spellings that the file system "
+                        "resolves to the same file (./textflag.h) are other strings to avo and to the model alike",
+                        "`A|B|n` is evaluated as bitwise OR of macro values and decimal literals: MEASURED for the sampled files by "
+                        "the DATA probes of the asm route, assumed for the 65536-value sweep",
+                        "a TEXT line without clause has flags 0 (the asm route reports 0 for it unmeasured; C11 measures the flags of "
+                        "TEXT symbols that the -S listing shows)",
                         "textflag.h of `go env GOROOT` is the header the assembler includes"]
     ctx.trusted.append("Oracle.textflagH is parsed from $(go env GOROOT)/pkg/include/textflag.h on every run")
+    ctx.trusted.append("harness/c19file.go: reading the include lines and the TEXT/GLOBL clauses back from the printed text, the "
+                       "classification of generated cases for the floors, parsing of the go tool asm -S listing: glue")
